@@ -7,3 +7,6 @@ OBS = [Ob(['C11'], 'filter_shape%d' % k, 'filt', 'harness/filt.c', 'h_filter', d
           desc='Filter navigation on the filter document %s equals the projection rule (six navigations x four allow-predicates)' % nm, bound='all 256 values of the one-byte key (empty key included)')
        for k, nm in enumerate(NAMES) if k != 3]   # a numeric filter is unspecified by the property (1 == true in the library)
 META = {'C11': dict(level='model_checking', assumptions=[], not_claimed=['equality of whole filtered and unfiltered results for arbitrary (input, filter) pairs (needs whole-parser runs)', 'filters outside the 15-document family', 'memory comparison filtered vs unfiltered'])}
+for st, nm in [(1, '{"*":true}'), (0, '{"a":true}')]:
+    OBS.append(Ob(['C11', 'C03'], 'filter_obj_%s' % ('star' if st else 'a'), 'filt', 'harness/filt.c', 'h_filter_obj', defs=['STAR=%d' % st], unwind=8, fs=4096, objbits=12, cap=300, hunwind=8,
+        desc='Filter navigation on the object filter %s (built with the low-level API): member / wildcard by key; an index selects nothing (consistent with allowArray() == false)' % nm, bound='all 256 values of the one-byte key'))
